@@ -16,6 +16,9 @@ def run(tier, seed):
         # blocks of exited threads freed by a thread that adopts their segment in the same call (reclaim on free): the block goes back exactly once
         {"prog": "exit", "strategy": "random", "runs": (100, 1500), "args": ["--rate", "3"], "env": {"MIMALLOC_ABANDONED_RECLAIM_ON_FREE": "1"}},
         {"prog": "exit", "strategy": "pct", "runs": (60, 800), "args": [], "env": {"MIMALLOC_ABANDONED_RECLAIM_ON_FREE": "1"}},
+        # ... also while a destroyable heap (mi_heap_new) is the thread's default heap: it must not adopt the segment (its destroy would release live blocks of others)
+        {"prog": "exit-heap", "strategy": "random", "runs": (40, 500), "args": ["--rate", "3"], "env": {"MIMALLOC_ABANDONED_RECLAIM_ON_FREE": "1"}},
+        {"prog": "exit-heap", "strategy": "pct", "runs": (30, 400), "args": [], "env": {"MIMALLOC_ABANDONED_RECLAIM_ON_FREE": "1"}},
         {"prog": "exit", "strategy": "random", "runs": (60, 800), "args": ["--size", "40", "200"], "env": {"MIMALLOC_ABANDONED_RECLAIM_ON_FREE": "1"}},
         # a remote thread that has just set DELAYED_FREEING is not scheduled for the next 6 yields of the others (owner exit / heap delete must wait for it)
         {"prog": "exit", "strategy": "random", "runs": (80, 1000), "args": ["--park", "6", "--rate", "3"]},
